@@ -23,6 +23,39 @@ from model import Model  # noqa: E402
 import props  # noqa: E402
 
 
+CFG_FEATURES = {"K0": {"async"}, "K1": {"async", "interruptible"}, "K2": {"async", "graph_info"},
+                "K3": {"async", "fn_meta", "resman", "fn_res"}, "K4": set()}
+
+
+def cfg_features(cfg):
+    if cfg in CFG_FEATURES:
+        return CFG_FEATURES[cfg]
+    if cfg.startswith("F:"):
+        return set(x for x in cfg[2:].split(",") if x)
+    return set()
+
+
+def rule_applies(rule_cfgs, cfg):
+    """a rule listed for named configurations applies to a feature set that
+    contains the features of one of them"""
+    if cfg in rule_cfgs:
+        return True
+    if not cfg.startswith("F:"):
+        return False
+    fs = cfg_features(cfg)
+    return any(CFG_FEATURES.get(c, set()) <= fs and (c != "K4" or True) for c in rule_cfgs)
+
+
+def all_feature_sets():
+    import itertools
+    feats = extract.ALL_FEATURES
+    out = []
+    for r in range(len(feats) + 1):
+        for c in itertools.combinations(feats, r):
+            out.append("F:" + ",".join(c))
+    return out
+
+
 def run_cfg(prop, cfg, repo):
     """returns (cfg, obs, info) or raises"""
     path, wall = extract.extract(cfg, repo=repo)
@@ -36,7 +69,7 @@ def run_cfg(prop, cfg, repo):
     spec = props.PROPS[prop]
     ran = []
     for rule_name, fn, cfgs, kwargs in spec["rules"]:
-        if cfg not in cfgs:
+        if not rule_applies(cfgs, cfg):
             continue
         try:
             fn(ctx, **kwargs)
@@ -72,9 +105,10 @@ def main():
     if spec.get("custom"):
         return spec["custom"](prop, a.tier, seed, a.repo, t0)
     cfgs = list(spec["cfgs_quick"])
-    if a.tier == "thorough":
-        for c in spec.get("cfgs_thorough", []):
-            if c not in cfgs:
+    if a.tier == "thorough" and cfgs:
+        # every combination of the crate's cargo features in which at least one rule of the property applies
+        for c in all_feature_sets():
+            if any(rule_applies(rc, c) for _, _, rc, _ in spec["rules"]) and c not in cfgs:
                 cfgs.append(c)
     try:
         extract.ensure_driver()
@@ -128,13 +162,14 @@ def main():
         "distinct_nontrivial": len({o.key + "|" + str(o.cfg) for o in obs}),
         "not_decided": spec.get("not_decided", ""),
     }
-    if a.tier == "thorough" and spec.get("thorough_extra"):
+    if a.tier == "thorough" and os.path.abspath(a.repo) == "/repo":
+        # self-test of the checker (does not change the verdict on /repo): seeded changes of this
+        # property must fire, benign variants must stay silent
         try:
-            extra_obs, extra_cov = spec["thorough_extra"](prop, a.repo)
-            obs.extend(extra_obs)
-            extra.update(extra_cov)
+            import selftest
+            extra["selftest"] = selftest.for_property(prop)
         except Exception:
-            obs.append(Ob("selftest", "internal-error", "unverifiable", "-", traceback.format_exc()[-800:]))
+            extra["selftest"] = {"error": traceback.format_exc()[-800:]}
     return finish(prop, a.tier, seed, spec.get("level", "other"), obs, t0, spec["explanation"], spec["assumptions"], extra,
                   spec["technique"], skipped_cfgs=skipped, checker_cmd=spec.get("checker_cmd"), trusted_base=spec.get("trusted_base"))
 
